@@ -109,12 +109,12 @@ func cutBytes(b []byte, cuts []int) [][]byte {
 }
 
 type c02case struct {
-	line   string // replayable request
-	class  string
-	must   bool // malformed class that must be failed
-	raw    []byte
-	ver    string
-	frame  bool
+	line  string // replayable request
+	class string
+	must  bool // malformed class that must be failed
+	raw   []byte
+	ver   string
+	frame bool
 }
 
 func runC02(c *ctx) {
